@@ -63,10 +63,22 @@ SecCountCases == {[ver |-> v, shift |-> sh, method |-> m, enc |-> en, crc |-> TR
                    seccounts |-> IF sh = 0 THEN <<1, 2, 127, 128, 129, 300>> ELSE <<255, 256, 257>>] :
                     v \in {1, 4}, sh \in {0, 1}, m \in {0, 2}, en \in {"plain", "encfix"}}
 
+\* "huge member" cases (both tiers): a V3/V4 archive with one incompressible member of >= 2^22 bytes: position, file size
+\* and stored size then need ~23 bits each, the packed BET entry is wider than 64 bits
+HugeCases == {[ver |-> v, shift |-> 3, method |-> 0, enc |-> "plain", crc |-> FALSE, attrs |-> "none", listfile |-> TRUE,
+               tablecomp |-> FALSE, nfiles |-> 2, big |-> n, bigfirst |-> (v = 3)] :
+                v \in {3, 4}, n \in {2^22 - 100, 2^22 + 5, 3 * 2^20 + 1}}
+\* file SETS as a dimension (both tiers): two names that are one lookup key -- equal up to ASCII case, up to slash
+\* direction, or identical -- added together with different contents.  AddHash must refuse (build Err is allowed) or keep
+\* them distinct; an archive in which one of them reads back the other's bytes is "build accepted colliding names"
+DupCases == {[ver |-> v, shift |-> 3, method |-> 2, enc |-> "plain", crc |-> FALSE, attrs |-> "none", listfile |-> lf,
+              tablecomp |-> FALSE, nfiles |-> 4, dup |-> d] :
+               v \in {1, 2, 3, 4}, lf \in BOOLEAN, d \in {"case", "slash", "exact", "caseslash"}}
+
 CaseSet0 == IF Thorough THEN ThoroughSet \cup {c \in Full : InQuickAllVersions(c)} \cup Draws(100)
            ELSE {c \in Full : InQuick(c)} \cup Draws(24)
 ASSUME CaseSet0 \subseteq Full
-Cases == SetToSeq(CaseSet0) \o SetToSeq(TableCases) \o SetToSeq(WidthCases) \o SetToSeq(SecCountCases)
+Cases == SetToSeq(CaseSet0) \o SetToSeq(TableCases) \o SetToSeq(WidthCases) \o SetToSeq(SecCountCases) \o SetToSeq(HugeCases) \o SetToSeq(DupCases)
 ASSUME ndJsonSerialize(IOEnv.CASES, Cases)
 ASSUME PrintT(<<"GENERATED", Len(Cases), "of", Cardinality(Full)>>)
 =============================================================================
